@@ -305,7 +305,7 @@ impl<C: Cfg> World<C> {
         self.flav[w] = self.flav[v];
         self.model[w] = self.model[v].clone();
         self.vecs[w] = Some(c);
-        self.expect_clones += if C::T::TRACKED { len as u64 } else { 0 };
+        self.expect_clones += if C::T::COUNTS_CLONES { len as u64 } else { 0 };
         if let Some(p) = problem {
             self.fail(MON_CLONE | MON_MODEL, "clone:shape", p);
             return;
@@ -405,7 +405,26 @@ impl<C: Cfg> World<C> {
             self.class("parts-cloned");
         }
         let Ok((nv, seen)) = r else { return };
+        // the rebuilt vector must be indistinguishable from the original
+        let rebuilt = (
+            nv.len(),
+            nv.capacity(),
+            nv.as_bytes().as_ptr() as usize,
+            nv.element_typeid(),
+            nv.element_layout(),
+            nv.element_drop().map(|f| f as usize).unwrap_or(0),
+            if <C::Tr as TSet>::CLONEABLE { <C::Tr as TSet>::element_clone_addr(&nv) } else { 0 },
+        );
         self.vecs[v] = Some(nv);
+        let original = (len, cap, base, TypeId::of::<C::T>(), Layout::new::<C::T>(), drop_addr, clone_addr);
+        if rebuilt != original {
+            self.fail(
+                MON_MODEL,
+                "raw_parts:rebuilt",
+                format!("vector rebuilt by from_raw_parts differs from the original: (len, capacity, storage, typeid, layout, drop fn, clone fn) = {:?}, original {:?}", rebuilt, original),
+            );
+            return;
+        }
         let want_layout = Layout::new::<C::T>();
         let tid = TypeId::of::<C::T>();
         let mut problem: Option<String> = None;
